@@ -80,7 +80,7 @@ class TraceMon(Monitor):
         return None if x is None else (x[0], "S")
 
     def on_call(self, w, rec) -> None:
-        if not self.on or rec.ent not in self.names:
+        if not self.on or rec.ent not in self.names or rec.hk not in ("src", "dst"):
             return
         self.calls += 1
         if w.a.handlers["src"].state.name == "IDLE" and w.b.handlers["dst"].state.name == "IDLE" and rec.inb is None:
@@ -115,7 +115,7 @@ class TCancel(Monitor):
         self.done = None
 
     def on_call(self, w, rec) -> None:
-        if self.tm.on and self.done is None and rec.ent in ("a", "b") and rec.op == "sm" and self.tm.calls == self.after:
+        if self.tm.on and self.done is None and rec.ent in ("a", "b") and rec.hk in ("src", "dst") and rec.op == "sm" and self.tm.calls == self.after:
             self.done = False
             w.push(w.clock.t, ("fn", self._fn))
 
@@ -155,7 +155,12 @@ def start_T(w, tT, plan, tm: TraceMon):
         w.monitors.append(TCancel(tm, plan["cancel_after"], plan["cancel_side"]))
     rec = w.call(a, "src", "put", arg=w.put_request_obj(None))
     w.polls_stopped = True
-    w.polled = (("a", "src"), ("b", "dst")) + tuple(p for p in w.polled if p[0] not in ("a", "b"))
+    # one poll loop per handler: drop whatever poll events are pending (siblings with a head start) and re-arm all
+    import heapq
+
+    w.heap = [e for e in w.heap if e[2][0] != "poll"]
+    heapq.heapify(w.heap)
+    w.polled = (("a", "src"), ("b", "dst")) + tuple(p for p in w.polled if p not in (("a", "src"), ("b", "dst")))
     w.start_polls()
     return rec
 
@@ -327,11 +332,88 @@ def start_siblings(w, t, sib_log):
     w.push([0, 0, 40, 400][t.choose(4, "sibling start")], ("fn", put))
 
 
+def start_same_entity_siblings(w, t, sib_log):
+    """A second SourceHandler at entity a and a second DestHandler at entity b: they share the MIB objects
+    (local and remote entity configuration, fault handler table), the user, the filestore and the sequence number
+    provider with T's handlers, and run their own transfers between the same two entities."""
+    from spacepackets.util import UnsignedByteField
+
+    from cfdppy.handler.dest import DestHandler
+    from cfdppy.handler.source import SourceHandler
+    from cfdpsim.world import tid_of
+
+    a, b = w.a, w.b
+    a.handlers["src2"] = SourceHandler(a.lcfg, a.user, a.table, a.timers, a.seqp)
+    b.handlers["dst2"] = DestHandler(b.lcfg, b.user, b.table, b.timers)
+    lk = LinkCfg(("drop", "dup", "delay"), [(0, 1), (1, 5), (1, 3)][t.choose(3, "sibling fault rate")], None)
+    for ent, hk in ((a, "src2"), (b, "dst2")):
+        ent.lk_by[hk] = lk
+        ent.tape_by[hk] = t
+    w.polled = w.polled + (("a", "src2"), ("b", "dst2"))
+
+    def route(ent, pdu, hk):
+        tid = tid_of(pdu)
+        h2 = ent.handlers.get(hk + "2")
+        if h2 is not None:
+            if tid_t(h2.transaction_id) == tid and h2.state.name != "IDLE":
+                return hk + "2"
+            if tid in ent.closed[hk + "2"] or tid in state["tids"]:
+                return hk + "2"
+        return hk
+
+    w.route_hook = route
+    c = w.cfg
+    n = 1 + t.choose(2, "sibling transfers")
+    state = {"i": 0, "tries": 0, "tids": set()}
+
+    def put(w2):
+        i = state["i"]
+        if i >= n:
+            return
+        h = a.handlers["src2"]
+        if h.state.name != "IDLE":
+            state["tries"] += 1
+            if state["tries"] < 25:
+                w2.push(w2.clock.t + 300, ("fn", put))
+            return
+        state["i"] += 1
+        mode = [ACK, UNACK][t.choose(2, "sibling mode")]
+        closure = bool(t.choose(2, "sibling closure"))
+        size = [5 * max(c.eff_seg, 1) + 2, 0, 2 * max(c.eff_seg, 1), 9 * max(c.eff_seg, 1)][t.choose(4, "sibling size")]
+        size = min(size, 4000)
+        w.vfs_a.h_put(f"src/s{i}.bin", bytes((3 * j + 5 * i + 2) & 0xFF for j in range(size)))
+        # the sibling names the destination with another id width when the packet length allows it
+        wsel = [None, 1, 2, 4, 8][t.choose(5, "sibling dest id width")]
+        dest = b.eid
+        if wsel is not None and 4 + 2 * max(c.idw_a, wsel) + c.seqw + 1 + 16 + (2 if c.crc else 0) + 2 <= c.mpl:
+            dest = UnsignedByteField(2, wsel)
+        sib_log.append(f"same-entity/{mode.name[:3]}/{size}/idw{dest.byte_len}")
+        req = PutRequest(dest, Path(f"src/s{i}.bin"), Path(f"dst/s{i}.bin"), mode, closure)
+        r = w2.call(a, "src2", "put", arg=req)
+        w2.push(w2.clock.t + [200, 900, 2500][t.choose(3, "sibling next")], ("fn", put))
+
+    class TidNote(Monitor):
+        def on_call(self, w2, rec):
+            if rec.ent == "a" and rec.hk == "src2" and rec.post.tid is not None:
+                state["tids"].add(rec.post.tid)
+
+    w.monitors.append(TidNote())
+    # the sibling starts first, so that T begins while it is mid-transaction (or just before / after it)
+    w.push([0, 0, 40, 400][t.choose(4, "sibling start")], ("fn", put))
+    if t.choose(2, "sibling head start") == 1:
+        put(w)
+        w.polls_stopped = True
+        w.start_polls()
+        for _ in range(t.choose(25, "head start events")):
+            if not w.step():
+                break
+
+
 # ---------------------------------------------------------------------------------------------
 
 
 def run_one(t):
-    variant = t.weighted([3, 3, 2], "variant")  # B / C / B+C
+    variant = t.weighted([3, 3, 2, 3], "variant")  # B / C / B+C / D (siblings on the same entities)
     # ---- A: fresh handlers; T's decisions are recorded on the main tape
     p0 = len(t.rec)
     w, cfg, plan, tm = build(t)
@@ -357,12 +439,14 @@ def run_one(t):
             unfinished = run_history(w2, t, hist_log)
         if variant in (1, 2):
             start_siblings(w2, t, sib_log)
+        if variant == 3:
+            start_same_entity_siblings(w2, t, sib_log)
         start_T(w2, tT, plan2, tm2)
         reason_b = w2.run(until=lambda w_: tm2.done(w_))
         trace_b = list(tm2.trace)
         fin_b = final_state(w2)
         label = ("hist=" + ",".join(hist_log) if hist_log else "") + (" sib=" + ",".join(sib_log) if sib_log else "")
-        res.pop = ["history", "siblings", "history+siblings"][variant]
+        res.pop = ["history", "siblings", "history+siblings", "same_entity_siblings"][variant]
         res.probes[f"C11.variant_{res.pop}"] = 1
         for hk in hist_log:
             res.probes["C11.hist_" + hk.split("/")[0].split(":")[0]] = res.probes.get("C11.hist_" + hk.split("/")[0].split(":")[0], 0) + 1
@@ -400,13 +484,13 @@ def run_one(t):
                 names = ("t", "ent", "hk", "op", "inbound", "emitted", "indications", "faults", "exception", "ret", "pre_step", "post_step", "progress", "counters")
                 what = ",".join(nm for nm, u, v in zip(names, x, y) if u != v)
             viol = Violation(
-                f"C11.{['history', 'siblings', 'history_siblings'][variant]}_changes_behaviour",
+                f"C11.{['history', 'siblings', 'history_siblings', 'same_entity_siblings'][variant]}_changes_behaviour",
                 f"{ref[1]}.{ref[2]} op={ref[3]} in={ref[4][0] if ref[4] else None} differs in {what} mode={cfg.mode.name[:5]}",
                 f"fresh: {x} | other: {y} | {label}",
             )
         elif fin_a != fin_b:
             viol = Violation(
-                f"C11.{['history', 'siblings', 'history_siblings'][variant]}_changes_file",
+                f"C11.{['history', 'siblings', 'history_siblings', 'same_entity_siblings'][variant]}_changes_file",
                 f"final state differs mode={cfg.mode.name[:5]}",
                 f"fresh={None if fin_a[0] is None else len(fin_a[0])},{fin_a[1:]} other={None if fin_b[0] is None else len(fin_b[0])},{fin_b[1:]} | {label}",
             )
